@@ -247,41 +247,47 @@ _mk_regex("sub", True, ("count", "flags"), "empty string")
 _mk_regex("subn", True, ("count", "flags"), "none")
 
 
-@register
-class Proxies(Contract):
-    """Vector.dt / .re proxies: every proxy attribute is functools.partial of the module function OF THE SAME NAME with the
-    vector bound (first positional argument for dt, keyword `string` for regex) - structural obligations on the current AST; the
-    run-time agreement proxy == module function is part of the bounded drivers."""
-    file, qualname, prop, variant = "dataiter/vector.py", "DtProxy.__init__", "C19", "proxies forward to the module function of the same name"
-    lemma_only = True
+def _mk_proxy(cls_name, module_file, bind):
+    @register
+    class P(Contract):
+        __doc__ = (f"Vector.{'dt' if cls_name == 'DtProxy' else 're'} proxy: after the real {cls_name}.__init__ has run, every attribute of the proxy is "
+                   "functools.partial of the module function OF THE SAME NAME with the vector bound "
+                   f"({'first positional argument' if bind == 'positional' else 'keyword string'}) and nothing else - so a call through the proxy is the "
+                   "module function applied to the vector and the caller's arguments.  (The constructor is executed; how it builds the partials - "
+                   "lambda, nested def, loop - does not matter.)")
+        file, qualname, prop = "dataiter/vector.py", cls_name + ".__init__", "C19"
 
-    def setup(self, cx):
-        return {"self": None}
+        def setup(self, cx):
+            v = sym_vector(cx, "vector")
+            it = cx.it
+            mod = it.repo_module("dataiter/vector.py")
+            cls = it.class_obj(mod.classes[cls_name])
+            from pyvc.interp import Instance
+            obj = Instance(cx.ctx, cls)
+            return {"self": obj, "args": [v], "v": v, "obj": obj}
 
-    def ensures(self, cx, result):
-        import ast
-        from pyvc.extract import RepoModule
-        mod = RepoModule.load("dataiter/vector.py", cx.it.repo)
-        for cls, module, bind in (("DtProxy", "dt", "positional"), ("ReProxy", "regex", "string")):
-            node = mod.find(cls + ".__init__")[0]
-            wraps = [st for st in node.body if isinstance(st, ast.Assign) and isinstance(st.value, ast.Lambda)]
-            ok_wrap = False
-            for st in wraps:
-                call = st.value.body
-                if isinstance(call, ast.Call) and ast.unparse(call.func) == "functools.partial":
-                    if bind == "positional":
-                        ok_wrap = len(call.args) == 2 and not call.keywords and ast.unparse(call.args[1]) == "vector"
-                    else:
-                        ok_wrap = len(call.args) == 1 and len(call.keywords) == 1 and call.keywords[0].arg == "string" and ast.unparse(call.keywords[0].value) == "vector"
-            cx.prove(f"{cls}: wrap binds the vector ({bind})", ok_wrap)
-            pairs = []
-            for st in node.body:
-                if isinstance(st, ast.Assign) and isinstance(st.targets[0], ast.Attribute) and isinstance(st.value, ast.Call) \
-                        and ast.unparse(st.value.func) == "wrap":
-                    pairs.append((st.targets[0].attr, ast.unparse(st.value.args[0])))
-            cx.prove(f"{cls}: proxy attributes exist", len(pairs) >= 7)
-            for attr, target in pairs:
-                cx.prove(f"{cls}.{attr} forwards to {module}.{attr}", target == f"{module}.{attr}")
+        def ensures(self, cx, result):
+            from pyvc.interp import Closure
+            it = cx.it
+            obj, v = cx.inputs["obj"], cx.inputs["v"]
+            attrs = {a: x for a, x in obj.attrs.items() if not a.startswith("_")}
+            cx.prove("the proxy has the module's functions", len(attrs) >= 7)
+            target = it.repo_module(module_file)
+            for a, x in sorted(attrs.items()):
+                ok = isinstance(x, M.Partial) and isinstance(x.func, Closure) and x.func.module is target and x.func.node.name == a
+                cx.prove(f"{cls_name}.{a} is a partial of {module_file.split('/')[-1][:-3]}.{a}", ok)
+                if not ok:
+                    continue
+                if bind == "positional":
+                    cx.prove(f"{cls_name}.{a} binds exactly the vector (first positional argument)", len(x.args) == 1 and x.args[0] is v and not x.kwargs)
+                else:
+                    cx.prove(f"{cls_name}.{a} binds exactly the vector (keyword string)", not x.args and list(x.kwargs) == ["string"] and x.kwargs["string"] is v)
+    P.__name__ = "Proxy_" + cls_name
+    return P
+
+
+_mk_proxy("DtProxy", "dataiter/dt.py", "positional")
+_mk_proxy("ReProxy", "dataiter/regex.py", "string")
 
 
 for _n, _why in (("quarter", "np.ceil of month / 3: arithmetic on float arrays"),
